@@ -1,5 +1,6 @@
 //! vh: harness that drives the real ipc-channel crate for the correspondence check.
 mod frag;
+mod shm;
 mod util;
 
 fn main() {
@@ -10,6 +11,7 @@ fn main() {
     }
     match args[1].as_str() {
         "frag" => frag::run(),
+        "shm" => shm::run(),
         other => {
             eprintln!("unknown driver {}", other);
             std::process::exit(2);
